@@ -582,7 +582,7 @@ func (h *harness) flagClasses() {
 				continue
 			}
 			cfg := o.Cfg
-			if err := cfg.SaveAsYaml(); err != nil {
+			if err := safeSave(&cfg); err != nil {
 				r.Violation("passphrase-flag", "SaveAsYaml failed: "+err.Error(), map[string]any{"case": c})
 				continue
 			}
@@ -653,7 +653,7 @@ func (h *harness) mixed(rng *rand.Rand, n int) {
 			}
 			cfg := h.d.build(fv, h.home)
 			_ = os.Remove(h.cfgPath)
-			if err := cfg.SaveAsYaml(); err != nil {
+			if err := safeSave(&cfg); err != nil {
 				r.Violation("save", "SaveAsYaml failed: "+err.Error(), map[string]any{"case": c})
 				continue
 			}
@@ -1120,4 +1120,14 @@ func Run(r *vk.Run) {
 	r.Require("genesis-invalid-refused", 50)
 	r.Require("genesis-create", 10)
 	r.SetExhaustive(len(missFile) == 0 && len(missFlag) == 0 && len(d.Unsupported) == 0)
+}
+
+// safeSave calls the writer under test; a panic inside it is reported like an error.
+func safeSave(cfg *config.Config) (err error) {
+	defer func() {
+		if p := recover(); p != nil {
+			err = fmt.Errorf("SaveAsYaml panicked: %v", p)
+		}
+	}()
+	return cfg.SaveAsYaml()
 }
